@@ -183,7 +183,10 @@ def directed(rnd, specs, names, counter):
 
         # (3) a parameter key given a second time with a tagged payload as value: the load must fail (or ignore it) without
         #     constructing the payload -- whatever the parameter's type
-        for prm in s['params'][:3]:
+        # (only for hosts outside any hierarchy: with registered sub- or superclasses a repeated key merely disqualifies the more
+        #  derived candidates, and the class that then matches is legitimately constructed)
+        in_hierarchy = bool([b for b in s.get('bases', []) if b not in ('ABC', 'Mixin')]) or bool(loadcase.all_subclasses(specs, s['name']))
+        for prm in ([] if in_hierarchy else s['params'][:3]):
             if not any(kv[0].value == prm['name'] for kv in base.value):
                 continue
             for p in mine[:2]:
